@@ -107,3 +107,98 @@ Proof.
 Qed.
 
 End S.
+
+(* ---- the constructors follow the statement order the translator reads from the source ---- *)
+Fixpoint ctor_of (c : string) (l : list (string * list eff)) : list eff :=
+  match l with [] => [] | (c', e) :: t => if String.eqb c c' then e else ctor_of c t end.
+
+(* one statement of SpectroscopicInstrument.__init__ *)
+Definition base_exec (name : string) (e : eff) (b : base) : base :=
+  match e with
+  | EClNone => set_classes b NoneV
+  | EKwNone => set_kwargs b None
+  | EClear => clear_spectral b
+  | ESet a => if String.eqb a "name" then set_name name b else b
+  | _ => b
+  end.
+Definition super_init (name : string) (b : base) : base :=
+  fold_left (fun b e => base_exec name e b) (ctor_of "SpectroscopicInstrument" model_ctors) b.
+
+Section Ctors.
+Variable rnd : Q -> Q.
+Variable resolution : ct_key -> Q -> Q.
+Variable deg2rad : Q -> Q.
+
+Definition sp_exec (p : sp_params) (r : res sp_state) (e : eff) : res sp_state :=
+  bind r (fun s =>
+    match e with
+    | ESet a => if String.eqb a "min_bins_per_pixel" then sp_set_mbpp (spp_mbpp p) s
+                else if String.eqb a "wavelength_to_pixel" then sp_set_w2p rnd (spp_w2p p) s else Err ErrOther
+    | ESuper => Ok (sp_with_base s (super_init (spp_name p) (sp_base s)))
+    | _ => Err ErrOther
+    end).
+
+Lemma sp_construct_follows_table p :
+  sp_construct rnd p
+  = fold_left (sp_exec p) (ctor_of "Spectrometer" model_ctors)
+      (Ok {| sp_mbpp := 0; sp_w2p := []; sp_wl := []; sp_base := base0 Missing |}).
+Proof.
+  unfold sp_construct. cbn. destruct (sp_set_mbpp (spp_mbpp p) _) as [s1|e]; cbn; [|reflexivity].
+  destruct (sp_set_w2p rnd (spp_w2p p) s1) as [s2|e]; reflexivity.
+Qed.
+
+Definition ct_exec (p : ct_params) (r : res ct_state) (e : eff) : res ct_state :=
+  bind r (fun s =>
+    match e with
+    | EAssign a => if String.eqb a "_accommodated_spectra"
+                   then Ok {| ct_k := ct_k s; ct_acc := None; ct_mbpp := ct_mbpp s; ct_w2p := ct_w2p s; ct_wl := ct_wl s; ct_base := ct_base s |}
+                   else Err ErrOther
+    | ESet a =>
+      if String.eqb a "diffraction_order" then ct_set_order rnd resolution (ctp_order p) s
+      else if String.eqb a "grating" then ct_set_pos rnd resolution key_grating (ctp_grating p) s
+      else if String.eqb a "focal_length" then ct_set_pos rnd resolution key_focal (ctp_focal p) s
+      else if String.eqb a "pixel_spacing" then ct_set_pos rnd resolution key_spacing (ctp_spacing p) s
+      else if String.eqb a "diffraction_angle" then ct_set_angle rnd resolution deg2rad (ctp_angle p) s
+      else if String.eqb a "accommodated_spectra" then ct_set_acc rnd resolution (ctp_acc p) s
+      else if String.eqb a "min_bins_per_pixel" then ct_set_mbpp (ctp_mbpp p) s
+      else if String.eqb a "name" then Ok (ct_with_base s (set_name (ctp_name p) (ct_base s)))
+      else Err ErrOther
+    | _ => Err ErrOther
+    end).
+
+Definition ct_blank : ct_state :=
+  {| ct_k := {| k_order := 0; k_grating := 0; k_focal := 0; k_spacing := 0; k_angle := 0 |};
+     ct_acc := None; ct_mbpp := 0; ct_w2p := []; ct_wl := []; ct_base := base0 Missing |}.
+
+(* in particular: no ESuper in the table, hence _pipeline_classes stays Missing *)
+Lemma ct_construct_follows_table p :
+  ct_construct rnd resolution deg2rad p = fold_left (ct_exec p) (ctor_of "CzernyTurnerSpectrometer" model_ctors) (Ok ct_blank).
+Proof.
+  unfold ct_construct. cbn.
+  destruct (ct_set_order rnd resolution (ctp_order p) _) as [s1|e]; cbn; [|reflexivity].
+  destruct (ct_set_pos rnd resolution key_grating (ctp_grating p) s1) as [s2|e]; cbn; [|reflexivity].
+  destruct (ct_set_pos rnd resolution key_focal (ctp_focal p) s2) as [s3|e]; cbn; [|reflexivity].
+  destruct (ct_set_pos rnd resolution key_spacing (ctp_spacing p) s3) as [s4|e]; cbn; [|reflexivity].
+  destruct (ct_set_angle rnd resolution deg2rad (ctp_angle p) s4) as [s5|e]; cbn; [|reflexivity].
+  destruct (ct_set_acc rnd resolution (ctp_acc p) s5) as [s6|e]; cbn; [|reflexivity].
+  destruct (ct_set_mbpp (ctp_mbpp p) s6) as [s7|e]; reflexivity.
+Qed.
+
+Definition pc_exec (p : pc_params) (r : res pc_state) (e : eff) : res pc_state :=
+  bind r (fun s =>
+    match e with
+    | ESuper => Ok (pc_with_base s (super_init (pcp_name p) (pc_base s)))
+    | ESet a => if String.eqb a "min_bins_per_window" then pc_set_mbpw (pcp_mbpw p) s
+                else if String.eqb a "filters" then pc_set_filters (pcp_filters p) s else Err ErrOther
+    | _ => Err ErrOther
+    end).
+
+Lemma pc_construct_follows_table p :
+  pc_construct p = fold_left (pc_exec p) (ctor_of "Polychromator" model_ctors)
+                     (Ok {| pc_mbpw := 0; pc_filters := []; pc_base := base0 Missing |}).
+Proof.
+  unfold pc_construct. cbn. destruct (pc_set_mbpw (pcp_mbpw p) _) as [s1|e]; cbn; [|reflexivity].
+  destruct (pc_set_filters (pcp_filters p) s1) as [s2|e]; reflexivity.
+Qed.
+
+End Ctors.
